@@ -61,3 +61,34 @@ M("C02", "revert-length-guard", NODES, "            node_bytes = opcode_emitter.
 M("C02", "guard-never-raises", NODES, "if self.predicted_length is not None and self.predicted_length != length:\n            raise NodeError(", "if self.predicted_length is not None and self.predicted_length != length:\n            logger.warning(", "C02.R4")
 M("C02", "rename-local-neutral", NODES, "        length = opcode_emitter.supposed_length(self.value_node, self.size)\n        self._check_length(length)\n        self.predicted_length = length\n        return current_pc + length",
   "        n_bytes = opcode_emitter.supposed_length(self.value_node, self.size)\n        self._check_length(n_bytes)\n        self.predicted_length = n_bytes\n        return current_pc + n_bytes", neutral=True)
+
+# ------------------------------------------------------------------ C07
+CG = "a816/parse/codegen.py"
+M("C07", "word-big-endian", NODES, 'return struct.pack("<H", self.value_node.get_value() & 0xFFFF)', 'return struct.pack(">H", self.value_node.get_value() & 0xFFFF)', "C07.R1")
+M("C07", "byte-unmasked", NODES, 'return struct.pack("B", self.value_node.get_value() & 0xFF)', 'return struct.pack("B", self.value_node.get_value())', "C07.R1")
+M("C07", "long-bank-from-bit-8", NODES, "class LongNode(NodeProtocol):\n    def __init__(self, value_node: ValueNodeProtocol) -> None:\n        self.value_node = value_node\n\n    def emit(self, current_address: Address) -> bytes:\n        value = self.value_node.get_value()\n        return struct.pack(\"<HB\", value & 0xFFFF, (value >> 16) & 0xFF)",
+  "class LongNode(NodeProtocol):\n    def __init__(self, value_node: ValueNodeProtocol) -> None:\n        self.value_node = value_node\n\n    def emit(self, current_address: Address) -> bytes:\n        value = self.value_node.get_value()\n        return struct.pack(\"<HB\", value & 0xFFFF, (value >> 8) & 0xFF)", "C07.R1")
+M("C07", "pointer-uses-dw", CG, '"pointer": generate_dl,', '"pointer": generate_dw,', "C07.R2")
+M("C07", "dl-parsed-as-dw", PST, 'return DataNode("dl", expressions, keyword)', 'return DataNode("dw", expressions, keyword)', "C07.R2")
+M("C07", "db-reversed", CG, "    code: GenNodes = []\n    for expr in node.data:\n        assert isinstance(expr, ExpressionAstNode)\n        code.append(ByteNode(",
+  "    code: GenNodes = []\n    for expr in reversed(node.data):\n        assert isinstance(expr, ExpressionAstNode)\n        code.append(ByteNode(", "C07.R3")
+M("C07", "dw-skips-zero", CG, "        code.append(WordNode(ExpressionNode(expr, resolver, file_info)))", "        if expr.tokens:\n            code.append(WordNode(ExpressionNode(expr, resolver, file_info)))", "C07.R3")
+M("C07", "incbin-label-after", NODES, "self.resolver.current_scope.add_label(self.symbol_base, current_pc)", "self.resolver.current_scope.add_label(self.symbol_base, retval)", "C07.R4")
+M("C07", "incbin-text-mode", NODES, 'with open(path, "rb") as binary_file:\n            self.binary_content = binary_file.read()', 'with open(path, "r") as binary_file:\n            self.binary_content = binary_file.read().encode()', "C07.R4")
+M("C07", "incbin-size-plus-one", NODES, 'add_symbol(self.symbol_base + "__size", len(self.binary_content))', 'add_symbol(self.symbol_base + "__size", len(self.binary_content) + 1)', "C07.R4")
+M("C07", "mask-as-modulo-neutral", NODES, 'return struct.pack("B", self.value_node.get_value() & 0xFF)', 'return struct.pack("B", self.value_node.get_value() % 256)', neutral=True)
+
+# ------------------------------------------------------------------ C03
+M("C03", "flush-on-reloc-too", PROG, "if isinstance(node, CodePositionNode):  # or isinstance(node, RelocationAddressNode):", "if isinstance(node, (CodePositionNode, RelocationAddressNode)):", "C03.R2",
+  edits=[(PROG, "if isinstance(node, CodePositionNode):  # or isinstance(node, RelocationAddressNode):", "if isinstance(node, (CodePositionNode, RelocationAddressNode)):"),
+         (PROG, "    IncludeIpsNode,\n", "    IncludeIpsNode,\n    RelocationAddressNode,\n")])
+M("C03", "drop-final-flush", PROG, "\n        if len(current_block) > 0:\n            writer.write_block(current_block, current_block_addr)\n\n    def assemble_string_with_emitter", "\n    def assemble_string_with_emitter", "C03.R2")
+M("C03", "prepend", PROG, "current_block += node_bytes", "current_block = node_bytes + current_block", "C03.R2")
+M("C03", "flush-with-live-pc", PROG, "                if len(current_block) > 0:\n                    writer.write_block(current_block, current_block_addr)\n                current_block_addr",
+  "                if len(current_block) > 0:\n                    writer.write_block(current_block, self.resolver.pc)\n                current_block_addr", "C03.R2")
+M("C03", "address-before-flush", PROG, "                if len(current_block) > 0:\n                    writer.write_block(current_block, current_block_addr)\n                current_block_addr = self.resolver.pc\n",
+  "                current_block_addr = self.resolver.pc\n                if len(current_block) > 0:\n                    writer.write_block(current_block, current_block_addr)\n", "C03.R2")
+M("C03", "set-position-moves-pc-for-ram", "a816/symbols.py", "        if physical is not None:\n            self.pc = physical\n", "        self.pc = physical if physical is not None else pc & 0xFFFF\n", "C03.R3")
+M("C03", "label-node-writes-pc", NODES, "        self.resolver.current_scope.add_label(self.symbol_name, current_pc)\n        return current_pc", "        self.resolver.current_scope.add_label(self.symbol_name, current_pc)\n        self.resolver.pc = self.resolver.pc\n        return current_pc", "C03.R1")
+M("C03", "reloc-emit-other-target", NODES, "        self.resolver.set_position(self.pc_value_node.get_value())\n        # self", "        self.resolver.set_position(self.pc_value_node.get_value() & 0xFFFF)\n        # self", "C03.R3")
+M("C03", "nonempty-test-neutral", PROG, "        if len(current_block) > 0:\n            writer.write_block(current_block, current_block_addr)\n\n    def assemble_string", "        if current_block:\n            writer.write_block(current_block, current_block_addr)\n\n    def assemble_string", neutral=True)
